@@ -112,7 +112,8 @@ _orig_swap = sm.swap_site
 def swap_wrap(out_ops_list, primary_ops, swap_jw, algo="Hopcroft-Karp"):
     start = len(LOG)
     rec = {"b1_len": len(out_ops_list[0]), "b2": exp_outops(out_ops_list[1]), "b3": exp_outops(out_ops_list[2]),
-           "nprim": len(primary_ops), "algo": algo}
+           "nprim": len(primary_ops), "algo": algo, "swap_jw": bool(swap_jw)}
+    _jw.clear()
     try:
         res = _orig_swap(out_ops_list, primary_ops, swap_jw, algo=algo)
     except Exception as e:
@@ -121,11 +122,31 @@ def swap_wrap(out_ops_list, primary_ops, swap_jw, algo="Hopcroft-Karp"):
         SWAPLOG.append(rec)
         raise
     rec["steps"] = LOG[start:]
+    rec["nprim2"] = len(primary_ops)            # swap_jw=True extends primary_ops in place
+    rec["jw_map"] = _jw.get("map", [])
     rec["nb2"] = exp_outops(res[0])
     rec["nb3"] = exp_outops(res[1])
     SWAPLOG.append(rec)
     return res
 
+
+_orig_jwmap = sm.table_and_factor_swapped_jw
+_jw = {}
+
+
+def jwmap_wrap(table, factor, primary_ops):
+    tin = [keyl(r) for r in table]
+    fin = [complex(f) for f in factor]
+    res = _orig_jwmap(table, factor, primary_ops)
+    tout, fout = res
+    m = {}
+    for ri, fi, ro, fo in zip(tin, fin, tout, fout):
+        m[(ri[1], ri[2])] = [int(ri[1]), int(ri[2]), int(ro[1]), int(ro[2]), cnum(complex(fo) / fi)]
+    _jw["map"] = list(m.values())
+    return res
+
+
+sm.table_and_factor_swapped_jw = jwmap_wrap
 
 import renormalizer.mps.mpo as mpomod
 sm.swap_site = swap_wrap
@@ -189,6 +210,24 @@ def run_case(case, algos, do_swap):
         except Exception as e:
             rec["dense_err"] = None
             rec["dense_exc"] = "%s: %s" % (type(e).__name__, str(e)[:200])
+        if case.get("jw_swaps"):
+            # exchanges WITH the Jordan-Wigner rule (symbolic correspondence only; the physics is property C17)
+            order = list(range(len(case["sites"])))
+            sw = []
+            for pos in case["jw_swaps"]:
+                order[pos], order[pos + 1] = order[pos + 1], order[pos]
+                nb = [L.make_basis(i, case["sites"][i]) for i in order]
+                del SWAPLOG[:]
+                item = {"pos": pos, "jw": True}
+                try:
+                    mpo.try_swap_site(Model(nb, []), True)
+                except Exception as e:
+                    item["error"] = "%s: %s" % (type(e).__name__, str(e)[:200])
+                item["log"] = list(SWAPLOG)
+                sw.append(item)
+                if "error" in item:
+                    break
+            rec["jw_swaps"] = sw
         if do_swap and case.get("swaps"):
             order = list(range(len(case["sites"])))
             sw = []
